@@ -5,7 +5,12 @@ HERE = os.path.dirname(os.path.abspath(__file__))
 
 
 def harness_files(tier, seed):
-    return [os.path.join(HERE, 'hC06.py')]
+    files = [os.path.join(HERE, 'hC06.py')]
+    if tier == 'thorough':
+        # the 24 depth-3 type expressions drawn from the grammar with VERIF_SEED (props/gen_types.py), under this property's oracle
+        os.environ['VERIF_SEED'] = str(seed)
+        files.append(os.path.join(HERE, 'hC05g.py'))
+    return files
 
 
 META = dict(
@@ -14,7 +19,7 @@ META = dict(
            "List/Dict/Optional/Union/another dataclass; Fraction/Decimal/date/datetime/time/path/compiled pattern chosen by a symbolic "
            "index from a concrete vocabulary",
     configs="43 types of the shared table x idempotence; 38 kinds of natively built values (incl. conditioned Fraction/date/Decimal/Set) x convert + dataclass constructor (Holder); "
-            "Range (3 constructions)",
+            "Range (3 constructions) + thorough tier: 24 type expressions of nesting depth 3 drawn from the grammar with VERIF_SEED (props/gen_types.py), type-directed values with 3 symbolic leaf slots, under this property's oracle",
     stubs=[],
     outside=["symbolic contents of Fraction/Decimal/datetime/path/pattern values (stdlib parsers realise them)",
              "externally/adjacently tagged unions (excluded by the statement)"],
